@@ -117,6 +117,11 @@ func vBuildWorld(shareKind int) (shareDeleted bool) {
 	case 3:
 		share.desc.ClaimType = "set-attribute" // not a share
 		share.isShare = false
+	case 5, 6:
+		// a search share: it shares a search, not a blob; no hop is authorised by it
+		share.desc.Target = blob.Ref{}
+		share.desc.Search = "query"
+		share.desc.Transitive = shareKind == 6
 	default:
 		share.desc.Transitive = true
 		share.desc.AuthType = "other"
@@ -200,6 +205,8 @@ func VK17Share1() { vShareChain(1) }
 func VK17Share2() { vShareChain(2) }
 func VK17Share3() { vShareChain(3) }
 func VK17Share4() { vShareChain(4) }
+func VK17Share5() { vShareChain(5) }
+func VK17Share6() { vShareChain(6) }
 
 func vShareChain(shareKind int) {
 	vInstall()
